@@ -46,12 +46,15 @@ UnknownVal == [k |-> "unknown", id |-> 0, len |-> 0, n |-> 0]
 
 \* the value length is always the implementation's (so that the accounting verdict is
 \* independent of the result verdict)
-PostRec(p, oldrec, newval) ==
+\* force: the call reported an accepted mutation, so the value is the one it wrote even when the
+\* version did not move (which the result verdict flags separately)
+PostRecF(p, oldrec, newval, force) ==
   IF ~p.p THEN S!NoRec
   ELSE S!Rec(T3(p.ts), T3(p.exp),
-             IF oldrec.p /\ oldrec.ts = T3(p.ts) /\ oldrec.val.len = p.vlen THEN oldrec.val
+             IF ~force /\ oldrec.p /\ oldrec.ts = T3(p.ts) /\ oldrec.val.len = p.vlen THEN oldrec.val
              ELSE IF newval.len = p.vlen THEN newval
              ELSE [UnknownVal EXCEPT !.len = p.vlen])
+PostRec(p, oldrec, newval) == PostRecF(p, oldrec, newval, FALSE)
 
 ConsistentWith(rec, p) ==
   /\ rec.p = p.p
@@ -143,7 +146,10 @@ TKeyed ==
       o1 == IF good # {} THEN CHOOSE o \in good : TRUE
             ELSE S!Out(r, PostRec(pk, cur, WrittenVal(op, e, cur)), isAuto,
                        IF ~isAuto /\ newgen THEN T3(e.ts) ELSE UZero)
-      newrec == PostRec(pk, cur, WrittenVal(op, e, cur))
+      mutated == /\ ~S!IsErr(r)
+                 /\ \/ op \in {"insert", "incr", "patch", "update_ttl"}
+                    \/ (op \in {"cas", "iia"} /\ r.n = 1)
+      newrec == PostRecF(pk, cur, WrittenVal(op, e, cur), mutated)
       newkv == [i \in 1 .. N |-> IF i = k THEN newrec ELSE PostRec(e.post.recs[i], kv[i], UnknownVal)]
       others == {i \in 1 .. N : i # k /\ newkv[i] # kv[i]}
       acc == IF newgen THEN T3(pk.ts) ELSE UZero
